@@ -29,6 +29,21 @@ class Bounded:
             if self.first is None:
                 self.first = witness
 
+    def case(self, witness):
+        """with b.case({...}): body  - an exception raised by the code under test counts as a violation."""
+        outer = self
+
+        class _Case:
+            def __enter__(self_):
+                return self_
+
+            def __exit__(self_, et, ev, tb):
+                if et is not None and issubclass(et, Exception):
+                    outer.check(False, dict(witness, exception=('%s: %s' % (et.__name__, ev))[:200]))
+                    return True
+                return False
+        return _Case()
+
     def result(self):
         return {'name': self.name, 'bound': self.bound, 'clause': self.clause, 'cases': self.cases,
                 'violations': self.violations, 'first_violation': self.first, 'known_by_witness': self.known,
